@@ -75,7 +75,8 @@ fn sf_of(n: &str) -> Option<SpreadingFactor> {
     SFS.iter().copied().find(|s| s.factor().to_string() == n)
 }
 fn bw_of(n: &str) -> Option<Bandwidth> {
-    BWS.iter().copied().find(|s| s.hz().to_string() == n)
+    // a bandwidth is named by the datasheet's figure in Hz (legacy replays, the C13 table) or by the crate's current hz()
+    crate::c13::bw_of(n).or_else(|| BWS.iter().copied().find(|s| s.hz().to_string() == n))
 }
 fn cr_of(n: &str) -> Option<CodingRate> {
     CRS.iter().copied().find(|s| s.denom().to_string() == n)
